@@ -17,7 +17,7 @@ import ast
 
 from sa.flow import FuncRef, Program
 from sa.pyfacts import Unknown, call_name, get_kw, norm, walk_no_nested
-from sa.q import Fn, inside, raise_class, raise_kw
+from sa.q import natom, Fn, inside, raise_class, raise_kw
 from sa.report import AnalysisError
 
 LEVEL = "other"
@@ -175,8 +175,30 @@ def r1_r2(repo, chk):
         top = p
     ok = top is not None and bool(accept) and all(hf.before(top, a) for a in accept)
     chk.ob("R1", "QuicStreamReceiver.handle_frame: the final-size tests complete before any data is accepted or delivered", ok, "a path (e.g. an in-order fast path) accepts data without comparing it with the known final size", hf.loc(hf.node))
+    # the three final-size conditions are exact: beyond a known final size (strictly), a FIN that disagrees with it, a FIN
+    # below data already received (strictly) - a weaker comparison accuses a peer that stayed within the final size
+    raw = [set(hf.lexical_guards(r, expand=False)) for r in hf.raises("FinalSizeError")]
+    allat = set().union(*raw) if raw else set()
+    # extra atoms that only say "an earlier sibling test failed" (elif chains) are tolerated
+    negs = {natom(a[0], not a[1]) for a in allat}
+    want = [
+        {("self._final_size is not None", True), natom("frame_end > self._final_size")},
+        {("self._final_size is not None", True), ("frame.fin", True), natom("frame_end != self._final_size")},
+        {("frame.fin", True), natom("frame_end < self.highest_offset")},
+    ]
+    used = set()
+    for w in want:
+        for i, g in enumerate(raw):
+            if i not in used and w <= g and all(x in negs for x in g - w):
+                used.add(i)
+                break
+    got = sorted(sorted(f"{'' if a[1] else 'not '}{a[0]}" for a in g) for g in raw)
+    want, got = len(want) == len(raw) == len(used), got
+    chk.ob("R2", "QuicStreamReceiver.handle_frame raises FinalSizeError under exactly: end > known final size; FIN with end != known final size; FIN with end < highest offset", want is True, f"conditions found: {got}", hf.loc(hf.node))
     hr = Fn(repo, "quic.stream:QuicStreamReceiver.handle_reset")
-    ok = any(any("self._final_size" in a[0] and " != " in a[0] and a[1] for a in hr.guard_atoms_x(r)) for r in hr.raises("FinalSizeError"))
+    gotr = sorted(sorted(a[0] for a in hr.lexical_guards(r, expand=False) if a[1]) for r in hr.raises("FinalSizeError"))
+    chk.ob("R2", "QuicStreamReceiver.handle_reset raises FinalSizeError exactly when a final size is known and differs", gotr == [sorted(["final_size != self._final_size", "self._final_size is not None"])], f"conditions found: {gotr}", hr.loc(hr.node))
+    ok = any(any("self._final_size" in a[0] and " != " in a[0] and a[1] for a in hr.lexical_guards(r)) for r in hr.raises("FinalSizeError"))
     chk.ob("R1", "QuicStreamReceiver.handle_reset rejects a final size that differs from the known one", ok, "", hr.loc(hr.node))
     ups = [st for st, t, v in hr.assigns(chain="self.highest_offset")]
     chk.ob("R1", "QuicStreamReceiver.handle_reset advances highest_offset to the final size (a repeated RESET_STREAM is not charged twice)", bool(ups), "the connection-level charge max(0, final_size - highest_offset) is re-applied for every copy of the frame: an in-limit peer is accused", hr.loc(hr.node))
